@@ -467,3 +467,36 @@ def replay_one(rp):
     print(json.dumps(rp, indent=1)[:4000])
     print("model/trace level finding: re-run ./check %s" % pid)
     return 0
+
+
+def apalache_inductive(wd, arith, mutate=False):
+    """Unbounded-length argument for the fragment loop: Apalache discharges Init => Ind and Ind /\\ Next => Ind' of
+    spec/apalache/FragInd.tla (any len, 4096 <= Sys <= 2^24). Returns (ok, note). The module transcribes the arithmetic
+    with Reserved/Hdr/Align = 32/8/8; if the running code reports other constants the step is skipped (note says so)."""
+    import shutil
+    import subprocess
+    if arith != {"Reserved": 32, "Hdr": 8, "Align": 8}:
+        return True, "skipped: the code's fragment arithmetic (%s) is not the one FragInd.tla transcribes" % arith
+    d = os.path.join(wd, "apalache")
+    shutil.rmtree(d, ignore_errors=True)
+    os.makedirs(d)
+    src = open(os.path.join(SPEC, "apalache", "FragInd.tla")).read()
+    if mutate:
+        src = src.replace("ELSE End - pos <= Min(FragSize(Sys), len - pos)))", "ELSE End - pos <= Min(FirstFragSize(Sys), len - pos)))")
+    with open(os.path.join(d, "FragInd.tla"), "w") as f:
+        f.write(src)
+    notes = []
+    for args in (["--init=Init", "--inv=Ind", "--length=0"], ["--init=IndInit", "--inv=Ind", "--length=1"]):
+        try:
+            p = subprocess.run(["apalache-mc", "check", "--cinit=ConstInit"] + args + ["FragInd.tla"], cwd=d,
+                               stdout=subprocess.PIPE, stderr=subprocess.STDOUT, text=True, timeout=900)
+        except subprocess.TimeoutExpired:
+            raise ToolError("apalache timed out")
+        if "EXITCODE: OK" in p.stdout:
+            notes.append(" ".join(args) + ": discharged")
+        elif "The outcome is: Error" in p.stdout:
+            return False, " ".join(args) + ": counterexample to induction found"
+        else:
+            raise ToolError("apalache failed: " + p.stdout[-1500:])
+    shutil.rmtree(d, ignore_errors=True)
+    return True, "; ".join(notes)
